@@ -92,7 +92,8 @@ type tr struct {
 	chanCall  map[*ast.CallExpr]string // "len","cap","close","make"
 	commaOk   map[*ast.UnaryExpr]bool
 	// generated comm calls, for select pattern matching
-	gen map[*ast.CallExpr]string // "send","recv","recv2"
+	gen     map[*ast.CallExpr]string // "send","recv","recv2"
+	wrapped map[*ast.CallExpr]bool
 	// blocks generated for range/select whose label must move inside
 	labelTarget map[ast.Stmt]*ast.Stmt
 }
@@ -124,6 +125,176 @@ func isChan(info *types.Info, e ast.Expr) bool {
 	}
 	_, ok = tv.Type.Underlying().(*types.Chan)
 	return ok
+}
+
+// sharedMutable finds the variables that can be written by one goroutine while
+// another one uses them without any channel operation in between: variables
+// assigned (or address-taken) inside a function literal that does not declare
+// them, and package-level variables assigned inside any function. Every
+// statement that mentions such a variable gets a scheduling point in front of
+// it, so that a data race on it becomes an explored interleaving instead of
+// being hidden by the atomicity of the code between two channel operations.
+func sharedMutable(info *types.Info, files []*ast.File) map[types.Object]bool {
+	shared := map[types.Object]bool{}
+	for _, f := range files {
+		var lits []*ast.FuncLit
+		var inFunc int
+		var visit func(n ast.Node) bool
+		mark := func(e ast.Expr) {
+			for {
+				switch v := e.(type) {
+				case *ast.ParenExpr:
+					e = v.X
+					continue
+				case *ast.IndexExpr: // a[i] = ..: the array/slice variable is written through
+					e = v.X
+					continue
+				}
+				break
+			}
+			id, ok := e.(*ast.Ident)
+			if !ok {
+				return
+			}
+			obj, ok := info.Uses[id].(*types.Var)
+			if !ok || obj.IsField() {
+				return
+			}
+			if obj.Parent() == obj.Pkg().Scope() {
+				if inFunc > 0 {
+					shared[obj] = true
+				}
+				return
+			}
+			if n := len(lits); n > 0 {
+				l := lits[n-1]
+				if obj.Pos() < l.Pos() || obj.Pos() > l.End() {
+					shared[obj] = true
+				}
+			}
+		}
+		visit = func(n ast.Node) bool {
+			switch v := n.(type) {
+			case *ast.FuncDecl:
+				if v.Body != nil {
+					inFunc++
+					ast.Inspect(v.Body, visit)
+					inFunc--
+				}
+				return false
+			case *ast.FuncLit:
+				lits = append(lits, v)
+				inFunc++
+				ast.Inspect(v.Body, visit)
+				inFunc--
+				lits = lits[:len(lits)-1]
+				return false
+			case *ast.AssignStmt:
+				if v.Tok != token.DEFINE {
+					for _, l := range v.Lhs {
+						mark(l)
+					}
+				}
+			case *ast.IncDecStmt:
+				mark(v.X)
+			case *ast.RangeStmt:
+				if v.Tok == token.ASSIGN {
+					if v.Key != nil {
+						mark(v.Key)
+					}
+					if v.Value != nil {
+						mark(v.Value)
+					}
+				}
+			case *ast.UnaryExpr:
+				if v.Op == token.AND {
+					if _, isLit := v.X.(*ast.CompositeLit); !isLit {
+						mark(v.X)
+					}
+				}
+			}
+			return true
+		}
+		ast.Inspect(f, visit)
+	}
+	return shared
+}
+
+// mentions reports whether the statement refers to a shared-mutable variable
+// outside nested function literals (those get their own scheduling points).
+func (t *tr) mentions(s ast.Stmt, shared map[types.Object]bool) bool {
+	found := false
+	ast.Inspect(s, func(n ast.Node) bool {
+		switch v := n.(type) {
+		case *ast.FuncLit:
+			return false
+		case *ast.BlockStmt, *ast.CaseClause, *ast.CommClause:
+			if n != ast.Node(s) {
+				return false // inner statement lists are handled on their own
+			}
+		case *ast.Ident:
+			if obj, ok := t.info.Uses[v]; ok && shared[obj] {
+				found = true
+			}
+		}
+		return !found
+	})
+	return found
+}
+
+func (t *tr) sharedVars(f *ast.File, shared map[types.Object]bool) {
+	if len(shared) == 0 {
+		return
+	}
+	yield := func() ast.Stmt { return &ast.ExprStmt{X: t.call("Yield")} }
+	fix := func(list []ast.Stmt) []ast.Stmt {
+		var out []ast.Stmt
+		for _, s := range list {
+			switch s.(type) {
+			case *ast.CommClause, *ast.CaseClause, *ast.DeclStmt:
+				out = append(out, s)
+				continue
+			}
+			if t.mentions(s, shared) {
+				t.cnt["sharedvar-yield"]++
+				out = append(out, yield())
+			}
+			out = append(out, s)
+		}
+		return out
+	}
+	depth := 0
+	var visit func(n ast.Node) bool
+	visit = func(n ast.Node) bool {
+		switch v := n.(type) {
+		case *ast.FuncDecl:
+			if v.Body != nil {
+				depth++
+				ast.Inspect(v.Body, visit)
+				depth--
+			}
+			return false
+		case *ast.FuncLit:
+			depth++
+			ast.Inspect(v.Body, visit)
+			depth--
+			return false
+		case *ast.BlockStmt:
+			if depth > 0 {
+				v.List = fix(v.List)
+			}
+		case *ast.CaseClause:
+			if depth > 0 {
+				v.Body = fix(v.Body)
+			}
+		case *ast.CommClause:
+			if depth > 0 {
+				v.Body = fix(v.Body)
+			}
+		}
+		return true
+	}
+	ast.Inspect(f, visit)
 }
 
 func (t *tr) prepass(f *ast.File) {
@@ -254,6 +425,12 @@ func (t *tr) expr(e ast.Expr) ast.Expr {
 			return c
 		}
 	case *ast.CallExpr:
+		if isBuiltin(t.info, v.Fun, "recover") && !t.wrapped[v] {
+			// the simulated runtime unwinds blocked threads with a sentinel panic that translated code must not swallow
+			t.cnt["recover"]++
+			t.wrapped[v] = true
+			return t.call("Recover", v)
+		}
 		switch t.chanCall[v] {
 		case "len":
 			t.cnt["len"]++
@@ -493,10 +670,12 @@ func translate(importPath, srcDir string, lookup func(string) (io.ReadCloser, er
 	}
 	dst := filepath.Join(*outDir, importPath)
 	os.MkdirAll(dst, 0o755)
+	shared := sharedMutable(info, files)
 	for i, f := range files {
 		t := &tr{importPath: importPath, fset: fset, info: info, cnt: counts{}, chanRange: map[*ast.RangeStmt]bool{}, chanCall: map[*ast.CallExpr]string{},
-			commaOk: map[*ast.UnaryExpr]bool{}, gen: map[*ast.CallExpr]string{}, labelTarget: map[ast.Stmt]*ast.Stmt{}}
+			commaOk: map[*ast.UnaryExpr]bool{}, gen: map[*ast.CallExpr]string{}, wrapped: map[*ast.CallExpr]bool{}, labelTarget: map[ast.Stmt]*ast.Stmt{}}
 		t.prepass(f)
+		t.sharedVars(f, shared)
 		t.walk(f)
 		// imports
 		for _, im := range f.Imports {
